@@ -1,4 +1,4 @@
 CONSTANTS
-  Fams = {"closure", "call", "rec", "assign", "destr", "const", "loop"}
+  Fams = {"closure", "call", "rec", "assign", "destr", "const", "loop", "epi"}
 SPECIFICATION Spec
 INVARIANTS Modelled Export
